@@ -465,6 +465,73 @@ Theorem C16_src_set_children : forall s (t : obj) (vs : list (option obj)), WF s
   src_set_children (S (S (length (hp s)))) (hp s) t vs = lift_set s (set_children s t vs).
 Proof. exact src_set_children_eq. Qed.
 
+(* ---- source-text tie, sixth tranche: the list facades translated from task.py on every run produce exactly the heap
+   of the model's operation (hence its documented effect and frame: C16_move, C16_insert, C16_reorder, C16_append,
+   C16_remove, C16_set_links above) and reject exactly what it rejects. ---- *)
+From PJ Require Import Graph.SrcGraphEquiv6 Graph.SrcGraphEquiv7.
+
+Theorem C16_src_ch_move : forall s o ts before after,
+  src_ch_move (hp s) o ts before after = lift_set s (ch_move s o ts before after).
+Proof. exact src_ch_move_eq. Qed.
+
+Theorem C16_src_ch_insert : forall s (o : obj) (i : Z) (t : option obj), WF s -> hid_tid (hp s) -> o < length (hp s) ->
+  (forall t', t = Some t' -> t' < length (hp s)) ->
+  src_ch_insert (S (S (length (hp s)))) (wroots s) (hp s) o i t = lift_set s (ch_insert s o i t).
+Proof. exact src_ch_insert_eq. Qed.
+
+Theorem C16_src_ch_append : forall s o t, WF s -> hid_tid (hp s) -> o < length (hp s) ->
+  (forall t', t = Some t' -> t' < length (hp s)) ->
+  src_ch_append (S (S (length (hp s)))) (wroots s) (hp s) o t = lift_set s (ch_append s o t).
+Proof. exact src_ch_append_eq. Qed.
+
+Theorem C16_src_ch_remove : forall s o t, WF s -> hid_tid (hp s) ->
+  src_ch_remove (S (S (length (hp s)))) (wroots s) (hp s) o t
+  = lift_b (ch_remove s o t) (match t with Some t' => memn t' (kids (get (hp s) o)) | None => false end).
+Proof. exact src_ch_remove_eq. Qed.
+
+Theorem C16_src_ch_reorder : forall s o ids, src_ch_reorder (hp s) o ids = lift_set s (ch_reorder s o ids).
+Proof. exact src_ch_reorder_eq. Qed.
+
+Theorem C16_src_pred_append : forall s t x, WF s -> hid_tid (hp s) ->
+  (forall x', x = Some x' -> hidden (get (hp s) x') = false) ->
+  src_pred_append (S (S (length (hp s)))) (hp s) t x = lift_set s (ln_append true s t x).
+Proof. exact src_pred_append_eq. Qed.
+
+Theorem C16_src_succ_append : forall s t x, WF s -> hid_tid (hp s) ->
+  (forall x', x = Some x' -> hidden (get (hp s) x') = false) ->
+  src_succ_append (S (S (length (hp s)))) (hp s) t x = lift_set s (ln_append false s t x).
+Proof. exact src_succ_append_eq. Qed.
+
+Theorem C16_src_pred_remove : forall s t x, WF s -> hid_tid (hp s) ->
+  src_pred_remove (S (S (length (hp s)))) (hp s) t x
+  = lift_b (ln_remove true s t x) (match x with Some x' => memn x' (preds (get (hp s) t)) | None => false end).
+Proof. exact src_pred_remove_eq. Qed.
+
+Theorem C16_src_succ_remove : forall s t x, WF s -> hid_tid (hp s) ->
+  src_succ_remove (S (S (length (hp s)))) (hp s) t x
+  = lift_b (ln_remove false s t x) (match x with Some x' => memn x' (succs (get (hp s) t)) | None => false end).
+Proof. exact src_succ_remove_eq. Qed.
+
+(* the documented effect of move, read off the translated source: the moved task ends immediately before / after the anchor,
+   everything else keeps its order *)
+Theorem C16_src_ch_move_one_effect : forall s o t b a h' u,
+  WF s -> src_ch_move (hp s) o [Some t] b a = Ok (h', u) ->
+  let l := kids (get (hp s) o) in
+  let l' := kids (get h' o) in
+  exists anchor pre post,
+    without t l = pre ++ anchor :: post /\
+    ((b = Some anchor /\ a = None /\ l' = pre ++ t :: anchor :: post) \/
+     (b = None /\ a = Some anchor /\ l' = pre ++ anchor :: t :: post)).
+Proof. intros s o t b a h' u W E. destruct (src_ch_move_one_effect s o t b a h' u W E) as [an [pre [post H]]]. exists an, pre, post. tauto. Qed.
+
+Theorem C16_src_ch_insert_index_error : forall s (o : obj) (i : Z) (t : option obj) k, WF s -> hid_tid (hp s) ->
+  o < length (hp s) -> (forall t', t = Some t' -> t' < length (hp s)) ->
+  (src_ch_insert (S (S (length (hp s)))) (wroots s) (hp s) o i t = Crash k
+   <-> k = IndexError /\ exists t', t = Some t' /\
+         let new_len := Z.of_nat (S (length (without t' (kids (get (hp s) o))))) in
+         ~ (- new_len <= i < new_len)%Z).
+Proof. exact src_ch_insert_crash_iff. Qed.
+
 Print Assumptions C16_move.
 Print Assumptions C16_move_one.
 Print Assumptions C16_insert.
@@ -515,3 +582,14 @@ Print Assumptions C16_src_set_parent_rejects_like_the_model.
 Print Assumptions C16_src_set_predecessors.
 Print Assumptions C16_src_set_successors.
 Print Assumptions C16_src_set_children.
+Print Assumptions C16_src_ch_move.
+Print Assumptions C16_src_ch_insert.
+Print Assumptions C16_src_ch_append.
+Print Assumptions C16_src_ch_remove.
+Print Assumptions C16_src_ch_reorder.
+Print Assumptions C16_src_pred_append.
+Print Assumptions C16_src_succ_append.
+Print Assumptions C16_src_pred_remove.
+Print Assumptions C16_src_succ_remove.
+Print Assumptions C16_src_ch_move_one_effect.
+Print Assumptions C16_src_ch_insert_index_error.
